@@ -1,7 +1,9 @@
 """C14 - P2C balancer.  spec/P2C.tla (integer abstraction of picks, completions, score and latency
-estimate), spec/P2CTrace.tla (trace validation) <- traces recorded on the real picker under the
-virtual clock by harness/c14/p2c_test.go."""
+estimate), spec/P2CTrace.tla (trace validation, one independent instance of P2C per picker of a
+history) <- traces recorded on real pickers, published by balancers that the REGISTERED builder
+(balancer.Get(p2c.Name)) built for fake ClientConns, under the virtual clock by harness/c14/p2c_test.go."""
 import json, os, subprocess, time
+from concurrent.futures import ThreadPoolExecutor
 from vlib import core
 
 PKG = "./rpc/internal/balancer/p2c"
@@ -22,11 +24,13 @@ DEAD_SHARE_MAX = {(3, 5): 0.68, (3, 1): 1.1, (5, 5): 0.45, (5, 1): 0.6, (8, 5): 
 MAX_GAP_MS = 5000         # longest time a connection stays unpicked under 1 kHz picks
 
 # order in which violated clauses name the disagreement
-CLAUSES = ["pick-not-ready", "done-not-ready", "succ-range", "succ-direction", "succ-progress", "fail-bound", "inflight",
+CLAUSES = ["ready-set", "pick-not-ready", "done-not-ready", "succ-range", "succ-direction", "succ-progress", "fail-bound", "inflight",
            "lag-range", "starved-2conn", "pick-effect", "done-effect", "time", "unknown-code"]
 
 META = dict(
-    text="Trace validation (code -> spec): an in-package driver builds pickers with p2cPickerBuilder over 1, 2, 3 and 8 "
+    text="Trace validation (code -> spec): an in-package driver obtains pickers the way grpc does - balancer.Get(p2c_ewma) "
+         "(the builder registered by the package's init) builds one balancer per fake ClientConn, the driver reports "
+         "resolver addresses and SubConn states, the balancer publishes pickers through UpdateState - over 1, 2, 3 and 8 "
          "fake ready SubConns and drives seeded random Pick/Done sequences (all 17 gRPC codes, nil and plain errors, "
          "time gaps from 0 to 2 min around the force-pick second and the 10 s decay) under the virtual clock; after "
          "every operation it logs [in-flight, score, latency estimate] of every connection. TLC (spec/P2CTrace.tla, all "
@@ -35,10 +39,20 @@ META = dict(
          "least as fast as the decay bound, a completion that read its time before the connection's previous completion moves nothing (reorder traces: the first completion is parked inside its clock read while a later one finishes), a backend whose calls all fail (>= 1 ms apart) is at or below 500 after at most 20000 completions (streak traces on n = 1 and n = 3), the estimate stays within the observed latencies, and with two connections "
          "none is left unpicked beyond the force-pick period under sustained picks. P2C.tla itself is model-checked "
          "(invariants, UnhealthyBound: 8 failing completions >= 1 s apart make a backend unhealthy, Recover, NoStarve2). "
+         "Multi-picker histories keep up to 16 pickers of two or three clients alive at once, all built by the one "
+         "registered picker-builder instance: clients come up one after the other, connections go down (transient "
+         "failure / idle) and come back so that a client's picker is rebuilt while its previous picker still serves a "
+         "few picks and the completions of its calls; picks and completions of all pickers are interleaved. Every event "
+         "names its picker and P2CTrace keeps one independent P2C state per picker, whose ready connections are those "
+         "of its own build (a picker must hold exactly them; a pick returning another client's or a no-longer-held "
+         "connection, or bookkeeping that moved to other records, is rejected). "
          "A concurrent variant (8 goroutines) logs the quiescent end state, judged by the same invariants; long 1 kHz "
          "runs with one dead backend measure its share and the longest unpicked interval.",
     note="Trusted: TLC, the Json module, the driver's projection (values saturated at 10^9), the virtual clock hook. The "
-         "pair selection rand is re-seeded by the driver (in-package) for reproducibility. Not decided by the spec: "
+         "pair selection rand is re-seeded by the driver (in-package) for reproducibility. Each published picker is "
+         "an independent instance with fresh bookkeeping (as in the code, which creates new records on every Build); "
+         "a builder that carried scores over from one picker of a client to the next would be rejected by this model. "
+         "Balancers are built by the registered builder over fake ClientConns, not through grpc.Dial. Not decided by the spec: "
          "which connection is picked among >= 3 (only that it is ready); 'chosen markedly less often' and 'about once "
          "per second' for >= 3 connections are driver statistics with wide margins (n = 3, 5, 8, failing backend equally fast or faster than its "
          "peers; its picks / those of the least picked healthy one, flagged at per-(n, latency) thresholds placed far above "
@@ -51,6 +65,7 @@ META = dict(
     design="4/C14")
 
 FINISH = dict(rule="every recorded trace (seeded random Pick/Done sequences for 1, 2, 3, 8 ready connections; "
+                   "histories with several pickers of several clients alive at once, all from the registered builder; "
                    "concurrent runs at quiescence) must be accepted by spec/P2CTrace.tla: each event is a step of "
                    "spec/P2C.tla whose post-state equals the logged projection; driver statistics for >= 3 "
                    "connections are flagged only beyond DESIGN.md section 5 margins")
@@ -61,12 +76,16 @@ FAILB = 20000             # unacceptable completions (>= 1 ms apart, none accept
 INVS = ["TypeOK", "InflEq", "SuccRange", "LagRange", "OnlyReady", "UnhealthyBound", "Recover", "FailBound"]
 
 
-def mc(ctx):
+MCW = 2       # TLC workers per model-checking run; MCPOOL of them run next to the (single-worker) trace validation
+MCPOOL = 3
+
+
+def mc_one(ctx):
     B1 = "picks[1] <= 8 /\\ infl[1] <= 1"
     # (a) one connection, completions one second apart: deep enough for the 8-completion runs
     K = dict(MCK, Conns="1..1", MCReady="1..1", MCSteps="{1000}", MCLats="{1000}")
     cfg = core.render_cfg(spec="Spec", constants=K, invariants=INVS, properties=["NoStarve2"], constraints=["Bound"], view="core")
-    ctx.tlc("P2C", cfg, constants=K, defs=dict(Bound=B1), name="P2C-mc1", workers=4, timeout=900, heap="2g")
+    ctx.tlc("P2C", cfg, constants=K, defs=dict(Bound=B1), name="P2C-mc1", workers=MCW, timeout=900, heap="2g")
     # the runs are really reached (vacuity guard for UnhealthyBound / Recover)
     for inv, nm in (("\\A c \\in Conns : badrun[c] < RunLen", "bad"), ("\\A c \\in Conns : goodrun[c] < RunLen", "good")):
         cfg2 = core.render_cfg(spec="Spec", constants=K, invariants=["NotReached"], constraints=["Bound"], view="core")
@@ -78,27 +97,33 @@ def mc(ctx):
     K4 = dict(K, MCSteps="{0,1}", MCCodes='{"nil","Unavailable"}', FailB=3)
     B4 = "picks[1] <= 5 /\\ infl[1] <= 2"
     cfg = core.render_cfg(spec="Spec", constants=K4, invariants=INVS, constraints=["Bound"], view="core")
-    ctx.tlc("P2C", cfg, constants=K4, defs=dict(Bound=B4), name="P2C-mc4", workers=4, timeout=900, heap="2g")
+    ctx.tlc("P2C", cfg, constants=K4, defs=dict(Bound=B4), name="P2C-mc4", workers=MCW, timeout=900, heap="2g")
     cfg2 = core.render_cfg(spec="Spec", constants=K4, invariants=["NotReached"], constraints=["Bound"], view="core")
     r2 = ctx.tlc("P2C", cfg2, constants=K4, defs=dict(Bound=B4, NotReached="\\A c \\in Conns : failrun[c] < FailB"),
                  name="P2C-reach-fail", workers=1, timeout=600, allow_violation=True, heap="2g")
     if r2.violated != "NotReached":
         raise core.Infra("vacuous model: FailB failing completions are not reachable within the bound")
+
+
+def mc_split(ctx):
     # (a'') completions split into begin / end, ends applied out of time order
     K5 = dict(MCK, Conns="1..1", MCReady="1..1", MCSteps="{0,1000}", MCLats="{1000,50000}", MCSplit=True)
     cfg = core.render_cfg(spec="Spec", constants=K5, invariants=INVS, constraints=["Bound"], view="core")
-    ctx.tlc("P2C", cfg, constants=K5, defs=dict(Bound="picks[1] <= 3 /\\ now <= 3000"), name="P2C-mc5", workers=4,
+    ctx.tlc("P2C", cfg, constants=K5, defs=dict(Bound="picks[1] <= 3 /\\ now <= 3000"), name="P2C-mc5", workers=MCW,
             timeout=900, heap="2g")
+
+
+def mc_two(ctx):
     # (b) two connections: force-pick rule, interleavings, close and far completions
     K = dict(MCK, MCLats="{1000}")
     cfg = core.render_cfg(spec="Spec", constants=K, invariants=INVS, properties=["NoStarve2"], constraints=["Bound"], view="core")
     ctx.tlc("P2C", cfg, constants=K, defs=dict(Bound="picks[1] + picks[2] <= 3 /\\ now <= 2600"),
-            name="P2C-mc2", workers=4, timeout=900, heap="2g")
+            name="P2C-mc2", workers=MCW, timeout=900, heap="2g")
     # (c) a connection of the universe that is not ready is never touched; two latency classes
     K = dict(MCK, Conns="1..3", MCSteps="{0,1000}")
     cfg = core.render_cfg(spec="Spec", constants=K, invariants=INVS, properties=["NoStarve2"], constraints=["Bound"], view="core")
     ctx.tlc("P2C", cfg, constants=K, defs=dict(Bound="picks[1] + picks[2] <= 2 /\\ now <= 2000"),
-            name="P2C-mc3", workers=4, timeout=900, heap="2g")
+            name="P2C-mc3", workers=MCW, timeout=900, heap="2g")
 
 
 def drive(ctx, binp, mode, out, name, **env):
@@ -146,14 +171,62 @@ def validate(ctx, trace_path, name, mode, extra_env):
         head = json.loads(lines[start])
         ev = json.loads(lines[idx])
         why = sorted(rj["why"], key=lambda w: CLAUSES.index(w) if w in CLAUSES else 99)
-        prev = json.loads(lines[idx - 1]) if idx - 1 > start else None
         msg = "trace %s (n=%s, %s): event #%d %s is not a step of P2C.tla: violates %s" % (
             head.get("id"), head.get("n"), mode, idx - start, json.dumps(ev, sort_keys=True), why)
+        pid = ev.get("p", 0)
+        before = [json.loads(x) for x in lines[max(start + 1, idx - 4000):idx]]
+        mine = [x for x in before if x.get("p", 0) == pid]
+        built = [x for x in mine if x.get("ev") == "build"]
+        if built:
+            msg += "; picker %s was built over the ready connections %s" % (pid, built[-1].get("ready"))
+            later = [x.get("p") for x in before if x.get("ev") == "build" and x.get("p", 0) > pid]
+            if later:
+                msg += " (pickers %s were built after it by the same registered builder)" % later
+        prev = mine[-1] if mine else None
         if prev is not None:
             msg += "; state before: infl=%s succ=%s lag=%s" % (prev.get("infl"), prev.get("succ"), prev.get("lag"))
         case = dict(mode=mode, trace=head.get("id"), seed=ctx.seed, env=extra_env, events=[json.loads(x) for x in lines[max(start, idx - 50):idx + 1]])  # tail of the prefix; replay regenerates the trace
         ctx.disagree("C14:" + why[0], msg, case=json.dumps(case), step=idx - start, source=name)
     return res
+
+
+def multi_guard(ctx, trace_path):
+    """What the multi histories really exercised (counted on the recorded trace); the guard is evaluated by
+    run() only when no disagreement was found."""
+    cnt = dict(histories=0, two_clients_picked=0, picks_after_later_build=0, dones_after_later_build=0,
+               picks_on_superseded=0, dones_on_superseded=0, pickers=0, max_alive=0)
+    builds, picked = {}, set()
+
+    def close():
+        if len({builds[p]["client"] for p in picked if p in builds}) >= 2:
+            cnt["two_clients_picked"] += 1
+    for line in open(trace_path):
+        e = json.loads(line)
+        if e["ev"] == "reset":
+            if cnt["histories"]:
+                close()
+            cnt["histories"] += 1
+            builds, picked = {}, set()
+        elif e["ev"] == "build":
+            builds[e["p"]] = e
+            cnt["pickers"] += 1
+        elif e["ev"] in ("pick", "done"):
+            p = e.get("p", 0)
+            if p not in builds:
+                continue
+            if e["ev"] == "pick":
+                picked.add(p)
+                cnt["max_alive"] = max(cnt["max_alive"], len(picked))
+            k = "picks" if e["ev"] == "pick" else "dones"
+            if any(q > p for q in builds):
+                cnt[k + "_after_later_build"] += 1
+            if any(q > p and builds[q]["client"] == builds[p]["client"] for q in builds):
+                cnt[k + "_on_superseded"] += 1
+    close()
+    for k, v in cnt.items():
+        ctx.counters["multi." + k] = v
+    return [k for k in ("two_clients_picked", "picks_after_later_build", "dones_after_later_build", "picks_on_superseded",
+                        "dones_on_superseded") if cnt[k] < 20]
 
 
 def stats(ctx, binp, ops):
@@ -190,8 +263,37 @@ def stats(ctx, binp, ops):
 
 
 def run(ctx):
-    mc(ctx)
-    binp = ctx.go_build(PKG, OVERLAY, name="c14drv")
+    # the model checking of P2C.tla runs next to the recording / validation of the traces
+    with ThreadPoolExecutor(MCPOOL) as ex:
+        futs = [ex.submit(f, ctx) for f in (mc_split, mc_two, mc_one)]
+        try:
+            binp = ctx.go_build(PKG, OVERLAY, name="c14drv")
+            traced(ctx, binp)
+        finally:
+            done = [f.exception() for f in futs]   # waits for all of them
+    for e in done:
+        if e is not None and not ctx.disagreements:
+            raise e                                # a model-level problem: never a verdict about the code
+        if e is not None:
+            ctx.notes["model_checking_problem"] = str(e)[:2000]
+
+
+def traced(ctx, binp):
+    try:
+        stages(ctx, binp)
+    except core.Infra as e:
+        # a harness problem of a later stage never hides what an earlier stage saw on the real code
+        if not ctx.disagreements:
+            raise
+        ctx.notes["infra_after_disagreement"] = str(e)[:2000]
+        core.log("harness problem after a disagreement was recorded (reported, not decisive): %s" % str(e)[:300])
+        return
+    if not ctx.disagreements and ctx.notes.get("multi_thin"):
+        raise core.Infra("vacuous multi-picker histories: too few of %s (counters: %s)" % (
+            ctx.notes["multi_thin"], {k: v for k, v in ctx.counters.items() if k.startswith("multi.")}))
+
+
+def stages(ctx, binp):
     if ctx.quick:
         seq, conc, ops = dict(VERIF_C14_TRACES=300, VERIF_C14_OPS=60), dict(VERIF_C14_TRACES=24, VERIF_C14_OPS=300), 20000
     else:
@@ -200,6 +302,13 @@ def run(ctx):
     drive(ctx, binp, "seq", tp, "seq", **seq)
     ctx.samples += [json.loads(x) for x in open(tp).read().splitlines()[1:4]]
     validate(ctx, tp, "trace-seq", "seq", seq)
+    # several pickers alive at once, all built by the one registered builder
+    mu = dict(VERIF_C14_TRACES=(160 if ctx.quick else 1500), VERIF_C14_OPS=(100 if ctx.quick else 140))
+    mp = os.path.join(ctx.build, "multi.ndjson")
+    drive(ctx, binp, "multi", mp, "multi", **mu)
+    ctx.samples += [json.loads(x) for x in open(mp).read().splitlines()[1:4]]
+    validate(ctx, mp, "trace-multi", "multi", mu)
+    ctx.notes["multi_thin"] = multi_guard(ctx, mp)
     cp = os.path.join(ctx.build, "conc.ndjson")
     drive(ctx, binp, "conc", cp, "conc", **conc)
     validate(ctx, cp, "trace-conc", "conc", conc)
